@@ -132,9 +132,13 @@ func ForeignEdit(g *Gen, locs [][]byte) []Line {
 			if len(g.Zones) > 0 {
 				z := g.Zones[r.Intn(len(g.Zones))]
 				lo := pick()
-				g2.NS(z, z.Child("ns-foreign"), "", g2.randIP(), lo)
-				if r.Chance(1, 2) {
-					g2.SOA(z, lo)
+				if r.Chance(1, 3) {
+					g2.Dot(z, "f", g2.maybeIP(), lo) // SOA + NS + glue of the foreign location in one line
+				} else {
+					g2.NS(z, z.Child("ns-foreign"), "", g2.randIP(), lo)
+					if r.Chance(1, 2) {
+						g2.SOA(z, lo)
+					}
 				}
 				if r.Chance(1, 2) {
 					g2.NS(z.Child("deleg"), z.Child("deleg").Child("ns-foreign"), "", g2.randIP(), lo)
